@@ -404,12 +404,54 @@ def _recall(fn, a, k, r, label):
     return r2
 
 
+# --- refill-and-recall ------------------------------------------------------------------------------------------
+# The mirror image of mutate-and-recall: state the library keeps about an *argument* (a remembered sort order, cached
+# triangle ids) keyed on the identity of the array object goes stale when the caller refills that array in place, as
+# code working through a preallocated buffer does.  For the functions a property names as order-agnostic, every
+# `every`-th successful attempt() is followed by: reverse every 1-d array argument in place (all of them, so paired
+# coordinates stay paired), repeat the call - the property's own wrappers judge it on the values now in the arrays -
+# and reverse the arrays back.  The driver gets the first result.
+ARGFLIP = {"every": 0, "n": 0, "only": {}}
+
+
+def enable_argflip(only, every=4):
+    """only: {label: None or predicate(args, kwargs) -> bool} - the calls for which reversing the arrays is a valid request"""
+    ARGFLIP.update(every=every, n=0, only=dict(only))
+
+
+def _argflip(fn, a, k):
+    arrs = [x for _, x in _iter_arrays(a, k) if x.ndim == 1 and x.size > 1 and x.flags.writeable]
+    if not arrs:
+        return
+    for i in range(len(arrs)):
+        for j in range(i + 1, len(arrs)):
+            if np.may_share_memory(arrs[i], arrs[j]):
+                return
+    for x in arrs:
+        x[...] = x[::-1].copy()
+    try:
+        fn(*a, **k)
+    except Exception:
+        pass            # judged by the wrappers
+    finally:
+        for x in arrs:
+            x[...] = x[::-1].copy()
+    COL.info["argflip_repeats"] = COL.info.get("argflip_repeats", 0) + 1
+
+
 def attempt(fn, *a, **k):
     """Driver helper: call fn, return (result, exception)."""
     try:
         r = fn(*a, **k)
     except Exception as e:  # noqa
         return None, e
+    if ARGFLIP["every"]:
+        label = getattr(fn, "_verif_label", None) or getattr(fn, "__qualname__", None) or getattr(fn, "__name__", "?")
+        pred = ARGFLIP["only"].get(label, False)
+        if pred is not False and (pred is None or pred(a, k)):
+            ARGFLIP["n"] += 1
+            if ARGFLIP["n"] % ARGFLIP["every"] == 0:
+                _argflip(fn, a, k)
     if RECALL["every"] and r is not None:
         label = getattr(fn, "_verif_label", None) or getattr(fn, "__qualname__", None) or getattr(fn, "__name__", "?")
         if label not in RECALL["skip"] and "<lambda>" not in label and (RECALL["only"] is None or label in RECALL["only"]):
@@ -417,3 +459,43 @@ def attempt(fn, *a, **k):
             if RECALL["n"] % RECALL["every"] == 0:
                 r = _recall(fn, a, k, r, label)
     return r, None
+
+
+def big_vs_windows(monitor, label, fn, arrays, windows, scalars=(), kwargs=None, same=None, wit=None):
+    """Differential check for size-gated code paths: fn(*arrays, *scalars, **kwargs) on long 1-d arrays must give,
+    element for element, what the same call gives on short windows of the same arrays (which take the ordinary path,
+    judged by the property's other oracles).  `same(big_slice, small)` compares one result component; default bitwise.
+    Returns the big result (or None)."""
+    kwargs = kwargs or {}
+    big, e = attempt(fn, *arrays, *scalars, **kwargs)
+    n = len(arrays[0])
+    w = dict(wit or {}, label=label, n=n, kwargs=repr(kwargs)[:120])
+    if e is not None:
+        COL.violation(monitor, "%s on %d elements raised %s: %s" % (label, n, type(e).__name__, str(e)[:140]), w)
+        return None
+    comps = big if isinstance(big, (tuple, list)) else (big,)
+    if any(np.shape(c) != (n,) for c in comps):
+        COL.violation(monitor, "%s on %d elements returned shapes %r" % (label, n, [np.shape(c) for c in comps]), w)
+        return big
+    bad = None
+    for (a, b) in windows:
+        small, e = attempt(fn, *[x[a:b] for x in arrays], *scalars, **kwargs)
+        if e is not None:
+            continue
+        sc = small if isinstance(small, (tuple, list)) else (small,)
+        for k, (cb, cs) in enumerate(zip(comps, sc)):
+            cb = np.asarray(cb)[a:b]
+            cs = np.asarray(cs)
+            ok = same(cb, cs) if same is not None else (cb.shape == cs.shape and cb.tobytes() == cs.tobytes())
+            if not ok:
+                j = int(np.nonzero(~(cb == cs))[0][0]) if cb.shape == cs.shape and (~(cb == cs)).any() else 0
+                bad = "%s on %d elements: component %d differs from the same call on elements [%d:%d] at index %d (%r vs %r)" % (
+                    label, n, k, a, b, a + j, cb[j] if cb.size > j else None, cs[j] if cs.size > j else None)
+                break
+        if bad:
+            break
+    if bad:
+        COL.violation(monitor, bad, w)
+    else:
+        COL.ok(monitor, ("big", label, int(np.log2(n)), n % 100000 == 0, repr(sorted(kwargs))[:40]))
+    return big
